@@ -13,6 +13,8 @@
       g  = get per query key, p = pull::<i64> per query key, d = enumeration of `.dedup()`, dg = get on `.dedup()`,
       b  = for every break index i in 0..=len(e): visitor calls and `+` when the result is Break, `.` otherwise,
       db = the same on `.dedup()`.
+    stream `c02_static` : (static INDEX (xK V)×6 (q xKEY…)) → the same observables on the INDEX-th statically typed
+                          nesting of the real combinators over the six pairs (no adapter in the harness)
     stream `c02_macro` : (macro INDEX) → e=…;u=…;g=…;m=<hex of the rendered message>   (fixture table below)
 -/
 import EmitModel.Base.Sexp
@@ -128,6 +130,47 @@ def runC02 (line : String) : String :=
     | _, _ => "bad-op"
   | _ => "bad-op"
 
+/-! ### stream `c02_static` -/
+
+/-- The statically typed shapes of harness/hcore/src/streams/c02.rs `run_static_shape`, over pairs `p 0 … p 5`. -/
+def staticShape (idx : Nat) (kv : Array (String × Val)) : Option P :=
+  let p (i : Nat) : P := match kv[i]? with
+    | some (k, v) => .pair k v
+    | none => .empty
+  let bt (is : List Nat) : P := .btree (fromInserts compare (is.filterMap (kv[·]?)))
+  match idx with
+  | 0 => some (.and (p 0) (.arr [p 1, p 2, p 3]))
+  | 1 => some (.and (.and (p 0) (.arr [p 1, p 2])) (.optSome (bt [3, 4])))
+  | 2 => some .optNone
+  | 3 => some (.ref (.and (.ref (.slice [p 0, p 1, p 2])) (.ref (p 3))))
+  | 4 => some (.boxed (.and (p 0) (.shared (.arr [p 1, p 2]))))
+  | 5 => some (.dedup (.arr [p 0, p 1, p 2, p 3]))
+  | 6 => some (.asMap (.and (bt [0, 1]) (p 2)))
+  | 7 => some (.arr [.optSome (p 0), .optNone, .optSome (p 1)])
+  | 8 => some (.and .empty (.and (p 0) .empty))
+  | 9 => some (.ref (.erased (.and (.arr [p 0, p 1]) (p 2))))
+  | 10 => some (.ref (.slice [.and (p 0) (p 1), .and (p 2) (p 3)]))
+  | 11 => some (.and (.ref (.dedup (.arr [p 0, p 1, p 2]))) (p 3))
+  | 12 => some (.dedup (.and (bt [0, 1]) (.arr [p 2, p 3])))
+  | 13 => some (.boxed (.erased (.shared (.and (p 0) (p 1)))))
+  | 14 => some (.arr [.arr [p 0, p 1], .arr [p 2, p 3]])
+  | 15 => some (.optSome (.ref (bt [0, 1, 2])))
+  | _ => none
+
+def runStatic (line : String) : String :=
+  match Sexp.parse line with
+  | some (.list [.atom "static", idx, a, b, c, d, e, f, .list (.atom "q" :: qs)]) =>
+    match idx.nat?, [a, b, c, d, e, f].mapM entry?, qs.mapM Sexp.str? with
+    | some idx, some kv, some qs =>
+      match staticShape idx kv.toArray with
+      | some p =>
+        let en := enum p
+        let sig := if en.isEmpty then "trivial" else s!"shape={idx},n={en.length},dup={hasDup en}"
+        s!"{observe p qs}\t{sig}"
+      | none => "bad-op"
+    | _, _, _ => "bad-op"
+  | _ => "bad-op"
+
 /-! ### stream `c02_macro` -/
 
 /-- The template of a call site names every field: `ident={ident}` joined by spaces. A hole carries the FINAL key
@@ -167,6 +210,6 @@ def runMacro (line : String) : String :=
   | _ => "bad-op"
 
 def streams : List (String × (String → String)) :=
-  [("c02", runC02), ("c02_macro", runMacro)]
+  [("c02", runC02), ("c02_static", runStatic), ("c02_macro", runMacro)]
 
 end EmitModel.Driver.C02
